@@ -126,6 +126,7 @@ Inductive frame :=
 | FCaller                 (* the synchronous caller of the outermost task            *)
 | FTask (lvl : Z)         (* the generator frame of the task at this level            *)
 | FHelper (j : Z)         (* plain functions called by the bottom task before the raise *)
+| FReader (k j : Z)       (* the generator frame of reader task j of the k-th observer of a failed task *)
 | FInt (i : iframe).
 
 (* debug.extract_tb (debug.py 163-187) drops frames whose module sets __traceback_hide__ *)
@@ -253,6 +254,100 @@ Definition caller_sees (ms : list (mode * how)) (b : bottom) : option (list fram
   | None => None
   | Some e => Some (tb (push FCaller (push (FInt I_call) (value_raises e))))
   end.
+
+(* ------------------------------------------------------------------------------------------ *)
+(** ** The same failed task observed several times
+
+   The exception object is shared: it is the error of the failed task and of every task it
+   propagates through later, and each _accept_error (async_task.py 277-288) overwrites the one
+   _traceback slot on it.  [exn_st] is that object; what one future remembers is kept apart.   *)
+
+(* futures.py set_error, with the repair of work/fixes/C18-shared-error-traceback.diff: the future
+   keeps the traceback the error carries at the moment the future fails (self._error_traceback =
+   getattr(error, "_traceback", None)) *)
+Definition saved_tb (e : exn_st) : option (list frame) :=
+  match pr e with Prepared s _ => Some s | NotPrepared => None end.
+
+(* futures.py raise_if_error, repaired: if self._error_traceback is not None:
+   self._error._traceback = self._error_traceback.  [rep = false] is the code as found: nothing is
+   restored, whatever the last task stored on the object is used.  (A _traceback attribute without
+   _type_ is read by nothing modelled here: reraise looks at _type_, throw at _task.) *)
+Definition restore (rep : bool) (sv : option (list frame)) (e : exn_st) : exn_st :=
+  if rep then
+    match sv, pr e with
+    | Some s, Prepared _ t => mkE (tb e) (Prepared s t)
+    | _, _ => e
+    end
+  else e.
+
+(* future.value() of a failed future that saved [sv] when it failed: futures.py 54-65, 150-158 *)
+Definition value_raises_of (rep : bool) (sv : option (list frame)) (e : exn_st) : exn_st :=
+  pushes [FInt I_raise_if_error; FInt I_value] (reraise (restore rep sv e)).
+
+(* the error of a failed future reaches frame f, which awaits it (yield fut) or asks for it
+   synchronously: fut.value() / fut() when [direct], else through AsyncDecorator.__call__ *)
+Definition arrive_of (rep : bool) (f : frame) (h : how) (direct : bool) (sv : option (list frame))
+           (e : exn_st) : exn_st :=
+  match h with
+  | HAwait => push f (throw_into (pushes [FInt I_unwrap; FInt I_continue] (value_raises_of rep sv e)))
+  | HSync => push f ((if direct then (fun x => x) else push (FInt I_call)) (value_raises_of rep sv e))
+  end.
+
+(* One observer: a chain of reader tasks rdr_k_0 .. rdr_k_(r-1), outermost first; the innermost one
+   looks at the failed task, each other one at the reader below it, by [how]; a level with
+   [catches] has a try/except around that and handles the error there. *)
+Definition observer := list (how * bool).
+
+Inductive outcome :=
+| Failed (e : exn_st)                       (* the future looked at failed; state of the exception object *)
+| Handled (seen : list frame) (e : exn_st). (* a reader handled it, with this traceback in its except clause *)
+
+(* the readers from level j inwards; [sF] = what the observed task saved, e = the shared object *)
+Fixpoint readers (rep : bool) (k j : Z) (rs : observer) (sF : option (list frame)) (e : exn_st)
+  : outcome :=
+  match rs with
+  | [] => Failed e
+  | (h, catches) :: rs' =>
+    match readers rep k (j + 1)%Z rs' sF e with
+    | Handled s e1 => Handled s e1          (* this level's await / call returns normally *)
+    | Failed e1 =>
+      let direct := match rs' with [] => true | _ => false end in
+      let a := arrive_of rep (FReader k j) h direct (if direct then sF else saved_tb e1) e1 in
+      if catches then Handled (tb a) a else Failed (leave_task a)
+    end
+  end.
+
+(* the driver of the observations (FCaller: a plain function calling synchronously, or a task
+   awaiting, per [drv]) catches whatever reaches it *)
+Definition observe1 (rep : bool) (drv : how) (k : Z) (rs : observer) (sF : option (list frame))
+           (e : exn_st) : list frame * exn_st :=
+  match readers rep k 0 rs sF e with
+  | Handled s e1 => (s, e1)
+  | Failed e1 =>
+    let direct := match rs with [] => true | _ => false end in
+    let a := arrive_of rep FCaller drv direct (if direct then sF else saved_tb e1) e1 in
+    (tb a, a)
+  end.
+
+Fixpoint observe_seq (rep : bool) (drv : how) (k : Z) (os : list observer)
+         (sF : option (list frame)) (e : exn_st) : list (list frame) :=
+  match os with
+  | [] => []
+  | o :: os' =>
+    let (seen, e') := observe1 rep drv k o sF e in
+    seen :: observe_seq rep drv (k + 1)%Z os' sF e'
+  end.
+
+(* the task lvl_0 of the chain (ms, b) is created once and observed by each of [os] in turn;
+   None: it returned normally, nobody sees an exception *)
+Definition observations_with (rep : bool) (ms : list (mode * how)) (b : bottom) (drv : how)
+           (os : list observer) : list (option (list frame)) :=
+  match task_result 0 ms b with
+  | None => map (fun _ => None) os
+  | Some e => map Some (observe_seq rep drv 0 os (saved_tb e) e)
+  end.
+
+Definition observations := observations_with true.
 
 (* ------------------------------------------------------------------------------------------ *)
 (** * Part C — creator chain (async_task.py 78, 309-344; debug.py 219-234)                     *)
@@ -577,12 +672,14 @@ Inductive case :=
 | CFilter (lines : list string)
 | CChain (ms : list (mode * how)) (b : bottom)
 | CStack (s0 : src) (cs : list (created * src))
+| CObserve (ms : list (mode * how)) (b : bottom) (drv : how) (os : list observer)
 | CRepr (o : obj).
 
 Inductive result :=
 | RFilter (out : list string)
 | RChain (frames : option (list frame))
 | RStack (entries : list entry)
+| RObserve (seen : list (option (list frame)))
 | RRepr (s r : res summary) (d : res (list (Z * dline))).
 
 Definition run_case (c : case) : result :=
@@ -590,6 +687,7 @@ Definition run_case (c : case) : result :=
   | CFilter ls => RFilter (filter_traceback ls)
   | CChain ms b => RChain (option_map user_frames (caller_sees ms b))
   | CStack s0 cs => RStack (stack_in_deepest s0 cs)
+  | CObserve ms b drv os => RObserve (map (option_map user_frames) (observations ms b drv os))
   | CRepr o => RRepr (of_option (str_obj o)) (of_option (repr_obj o))
                      (if has_dump (cls_of o) then Returned (dump_obj o 0) else NoMethod)
   end.
